@@ -434,12 +434,13 @@ pub fn c16(tier: &str, seed: u64, ops: Option<&[String]>) -> Report {
 
 pub fn c17(tier: &str, seed: u64, ops: Option<&[String]>) -> Report {
     use mqtt_proto::TopicFilter;
-    let mut rep = Report::new("C17", "for every accepted filter of the tf stream: accessors = the unique split $share/<name>/<filter> computed independently, non-shared report none, to_string/deref = text; ==, cmp, hash of filters agree with those of their strings on consecutive pairs");
+    let mut rep = Report::new("C17", "for every accepted filter of the tf stream: accessors = the unique split $share/<name>/<filter> computed independently, non-shared report none, to_string/deref = text; ==, cmp, partial_cmp, hash of filters agree with those of their texts on consecutive pairs AND on all pairs of a pool of ~1,000-3,000 accepted filters plus families of related shared filters (group names / filters extended by one character below, at and above '/'); sorting filters = sorting texts");
     let strs = match ops {
         Some(o) => strings_from_ops(o, "tf"),
         None => gen_strings("tf", tier, seed),
     };
     let mut prev: Option<(String, TopicFilter)> = None;
+    let mut pool: Vec<String> = Vec::new();
     let mut seen = std::collections::HashSet::new();
     for s in strs {
         let f = match TopicFilter::try_from(s.clone()) {
@@ -488,8 +489,60 @@ pub fn c17(tier: &str, seed: u64, ops: Option<&[String]>) -> Report {
                 rep.fail("filter-cmp", input.clone(), "two filters from the same text differ".into());
             }
         }
+        if pool.len() < 4000 && s.len() <= 40 && (expect.is_some() || pool.len() % 3 == 0) {
+            pool.push(s.clone());
+        }
         prev = Some((s, f));
     }
+    // ALL PAIRS over a pool of accepted filters plus families of RELATED filters: for each shared filter
+    // `$share/G/F`, group names that extend G by one character below / equal to / above '/' in code-point
+    // order, filters that extend F, and the ordinary filter with the same text after the prefix.
+    // (The ordering of two filters must be the ordering of their texts: sort, BTreeSet, binary search.)
+    let mut fam: Vec<String> = Vec::new();
+    for s in pool.iter().filter(|s| s.starts_with("$share/")).take(if tier == "thorough" { 400 } else { 120 }) {
+        let rest = &s[7..];
+        if let Some(i) = rest.find('/') {
+            let (g, f) = (&rest[..i], &rest[i + 1..]);
+            for c in [" ", "!", "$", "-", ".", "0", "a", "\u{7f}", "é", "\u{1}"] {
+                fam.push(format!("$share/{}{}/{}", g, c, f));
+                fam.push(format!("$share/{}/{}{}", g, f.trim_end_matches('#').trim_end_matches('+'), c));
+            }
+            fam.push(format!("{}/{}", g, f));
+            fam.push(format!("$share/{}/{}/x", g, f.trim_end_matches('#')));
+        }
+    }
+    let mut all: Vec<(String, TopicFilter)> = Vec::new();
+    let limit = if tier == "thorough" { 2500 } else { 900 };
+    let step = (pool.len() / limit).max(1);
+    for s in pool.iter().step_by(step).chain(fam.iter()) {
+        if let Ok(f) = TopicFilter::try_from(s.clone()) {
+            all.push((s.clone(), f));
+        }
+    }
+    if ops.is_none() || !all.is_empty() {
+        for (i, (sa, fa)) in all.iter().enumerate() {
+            for (sb, fb) in all.iter().skip(i) {
+                rep.cases += 1;
+                if fa.cmp(fb) != sa.cmp(sb) || fa.partial_cmp(fb) != sa.partial_cmp(sb) || (fa == fb) != (sa == sb) || fb.cmp(fa) != sb.cmp(sa) || (fa == fb && hash_of(fa) != hash_of(fb)) {
+                    rep.fail(
+                        "filter-cmp",
+                        format!("tf {}", hex_or_dash(sa.as_bytes())),
+                        format!("filters {:?} and {:?}: cmp={:?} eq={} but their texts compare {:?} eq={}", sa, sb, fa.cmp(fb), fa == fb, sa.cmp(sb), sa == sb),
+                    );
+                }
+            }
+        }
+        // and as a whole: sorting the filters = sorting the texts
+        let mut by_filter: Vec<&(String, TopicFilter)> = all.iter().collect();
+        by_filter.sort_by(|a, b| a.1.cmp(&b.1));
+        let mut by_text: Vec<&String> = all.iter().map(|x| &x.0).collect();
+        by_text.sort();
+        if by_filter.iter().map(|x| &x.0).collect::<Vec<_>>() != by_text {
+            let k = by_filter.iter().zip(by_text.iter()).position(|(a, b)| &&a.0 != b).unwrap_or(0);
+            rep.fail("filter-cmp", format!("tf {}", hex_or_dash(by_text[k].as_bytes())), format!("sorting {} filters gives a different order than sorting their texts (first difference at rank {}: {:?} vs {:?})", all.len(), k, by_filter[k].0, by_text[k]));
+        }
+    }
+    rep.count(&format!("all-pairs-pool:{}", all.len()));
     rep.sample("tf 2473686172652fe4bda0e5a5bd2f2b -> group 你好, filter +".into());
     rep
 }
@@ -847,7 +900,7 @@ pub fn c13(tier: &str, seed: u64, ops: Option<&[String]>) -> Report {
                     f.extend_from_slice(&name);
                     f.push(level);
                     wire.push(f.clone());
-                    if matches!(level, 3 | 4 | 5) && !name.is_empty() {
+                    if matches!(level, 3 | 4 | 5) && !name.is_empty() && name.len() < 100 {
                         let mut body = f;
                         body.extend_from_slice(&[2, 0, 10]);
                         if level == 5 {
